@@ -163,19 +163,6 @@ def kf_compact_marker(component, script, impl, problems):
         return False
     return True
 
-
-def c05_bounded_seektolast(component, script, impl, problems):
-    """BoundedIterator.SeekToLast with an end bound that is not a stored key leaves the iterator invalid although
-    keys below the bound exist. Matches only: component iter, every problem is exactly that observation (reported by
-    the oracle for a `last` that follows a range/bound with such an end), and each such `last` printed `- f - - f`."""
-    if component != 'iter' or not problems:
-        return False
-    if not all(p.startswith('bounded-last-end-absent: SeekToLast with end bound ') for p in problems):
-        return False
-    lasts = [i for s, i in zip(script, impl) if s.strip() == 'last']
-    return sum(1 for i in lasts if i == '- f - - f') >= len(problems)
-
-
 # C14 / C15 (components repl, replfault). Every predicate requires the scenario class (from the script) AND the symptom
 # (from the verdict fields the harness measured) AND that ALL problems of the case are of that one kind.
 # ---------------------------------------------------------------------------------------------------------------------
